@@ -21,17 +21,19 @@ ev == Trace[l]
 Is(e) == l <= Len(Trace) /\ Trace[l].e = e /\ l' = l + 1
 
 DefaultCfg == [mode |-> "onlyonce", qq0 |-> TRUE, maxinflight |-> 100, sessexpiry |-> 7200,
-               srvrecvmax |-> 100, srvaliasmax |-> 10, srvmaxpkt |-> 268435456]
+               srvrecvmax |-> 100, srvaliasmax |-> 10, srvmaxpkt |-> 268435456, msgexpiry |-> 0, maxqueued |-> 1000]
 
 TInit == /\ l = 1 /\ BInit(DefaultCfg)
 
 Msg(x) == [topic |-> x.topic, lv |-> x.lv, sys |-> x.sys, qos |-> x.qos, retain |-> x.retain, empty |-> x.empty,
-           tag |-> x.tag, pid |-> x.pid, dup |-> x.dup, alias |-> x.alias, notopic |-> x.notopic, size |-> x.size, fsize |-> x.fsize]
+           tag |-> x.tag, pid |-> x.pid, dup |-> x.dup, alias |-> x.alias, notopic |-> x.notopic, size |-> x.size, fsize |-> x.fsize,
+           msgexp |-> x.msgexp, ms |-> x.ms]
 
 TNext ==
   \/ /\ Is("reset")
      /\ cfg' = [mode |-> ev.mode, qq0 |-> ev.qq0, maxinflight |-> ev.maxinflight, sessexpiry |-> ev.sessexpiry,
-             srvrecvmax |-> ev.srvrecvmax, srvaliasmax |-> ev.srvaliasmax, srvmaxpkt |-> ev.srvmaxpkt]
+             srvrecvmax |-> ev.srvrecvmax, srvaliasmax |-> ev.srvaliasmax, srvmaxpkt |-> ev.srvmaxpkt,
+             msgexpiry |-> ev.msgexpiry, maxqueued |-> ev.maxqueued]
      /\ subs' = {} /\ conn' = <<>> /\ sess' = <<>> /\ owed' = <<>> /\ gowed' = {}
      /\ ctl' = <<>> /\ ret' = <<>> /\ unack' = <<>> /\ infl' = <<>> /\ last' = <<>>
      /\ ctr' = [pub |-> 0, oid |-> 0]
@@ -49,7 +51,8 @@ TNext ==
   \/ Is("pubcomp")     /\ PubAckRecv(ev.k, "pubcomp", ev.pid, ev.code)
   \/ Is("pubrel")      /\ ClientPubrel(ev.k, ev.pid)
   \/ Is("deliver")     /\ Deliver(ev.k, [topic |-> ev.topic, tag |-> ev.tag, qos |-> ev.qos, retain |-> ev.retain,
-                                         dup |-> ev.dup, pid |-> ev.pid, ids |-> ev.ids, size |-> ev.size, alias |-> ev.alias])
+                                         dup |-> ev.dup, pid |-> ev.pid, ids |-> ev.ids, size |-> ev.size, alias |-> ev.alias,
+                                         msgexp |-> ev.msgexp, ms |-> ev.ms])
   \/ Is("cack")        /\ ClientAck(ev.k, ev.t, ev.pid, ev.code)
   \/ Is("relout")      /\ PubrelRecv(ev.k, ev.pid)
   \/ Is("pingreq")     /\ Pingreq(ev.k)
@@ -58,7 +61,8 @@ TNext ==
   \/ Is("abort")       /\ ConnEnd(ev.k, -1)
   \/ Is("eof")         /\ ConnEnd(ev.k, -1)
   \/ Is("srvdisconnect") /\ SrvDisconnect(ev.k, ev.code)
-  \/ Is("quiet")       /\ Quiet
+  \/ Is("quiet")       /\ Quiet(ev.ms)
+  \/ Is("dropped")     /\ Dropped(ev.cid, ev.tag, ev.reason, ev.ms)
   \/ Is("note")        /\ UNCHANGED bvars
 
 TSpec == TInit /\ [][TNext]_tvars
